@@ -36,4 +36,21 @@ CHECKS["C06"] = dict(
     ref="5 C06",
 )
 
+_HIST = dict(
+    note="Trusts: oracle = same call on a brand-new function/table built from the method set that Trace_Table tracks itself (premise checked); bodies deterministic. Table.tla mirrors typemap.py; its agreement with the code is checked on every replayed step (SPEC-DRIFT otherwise).",
+)
+CHECKS["C04"] = dict(
+    technique="TLC model check of the table state machine (Table.tla: CacheInvisible over all lookup histories) + TLC-generated behaviours replayed on a real MultiTypeMap with state projection compared per step + function-level random histories judged by Trace_Table (same_as_fresh)",
+    text="Table.tla models the type-tuple table, the remembered errors, the candidate sets and the per-position caches with one action per critical section; TLC checks in every reachable cache state that every direct and continuation lookup returns what a brand-new table would. Behaviours generated from that module are replayed on the real table, and random call histories (repeats, failing calls, nested call_next / recurse with other argument types) on real functions are compared call by call with a freshly built function.",
+    ref="5 C04", **_HIST)
+CHECKS["C05"] = dict(
+    technique="TLC model check of Table.tla with Register actions (CacheInvisible, TmCacheFresh) + behaviours replayed on a real MultiTypeMap + random register/re-register/unregister/call histories on a real Ovld judged by Trace_Table (method set tracked by the spec; same_as_rebuilt)",
+    text="As C04 with the method set changing: registrations (including identical signatures), unregistrations and calls interleaved at any point; after every change every call is compared with a brand-new function built from the method set the TLA+ trace specification tracks. At table level TLC found the stale remembered error (fixed, 17f9f87) and replay confirmed it on the real code.",
+    ref="5 C05", **_HIST)
+CHECKS["C20"] = dict(
+    technique="TLA+ action property ResolveOnce on Table.tla (TLC) + trace judge Trace_Table (no_recompute_after_success) over invocation counters of user class predicates and of the guarded tm.miss / mtm.miss hooks",
+    text="After a call with a given argument-type combination succeeded, repeating it (directly or from inside methods) must not consult user class predicates again, must not re-run the per-position type ordering and must not re-enter table resolution for the plain key until the method set changes; Trace_Table tracks the epoch and the set of successful combinations and checks the recorded counter deltas.",
+    note="Trusts: counters = user class_check predicates (hook-free) plus the guarded hooks tm.miss / mtm.miss; predicates nested in value-dependent types are out of scope (Appendix A).",
+    ref="5 C20")
+
 PENDING_REASON = "check not built yet in this round (planned, see DESIGN section 10)"
